@@ -59,6 +59,14 @@ def self_u32(ctx, name):
     return key, sty
 
 
+def has_self_u32(ctx, name):
+    try:
+        self_u32(ctx, name)
+        return True
+    except Exception:
+        return False
+
+
 def accessor_dag(ctx, name):
     key, sty = self_u32(ctx, name)
     w = atom("w", "u32")
@@ -464,7 +472,9 @@ def check_C20(ctx):
         words = list(cards.values())
         space = [w | (combo << 29) for w in words for combo in range(8)]
         names = ["flag_as_pair", "flag_as_trips", "flag_as_quads", "strip_multiples_flags", "get_rank_flag", "get_rank_bit", "get_rank_prime",
-                 "get_suit_flag", "get_suit_bit", "get_card_rank", "get_card_suit", "get_rank_char", "get_suit_char"]
+                 "get_suit_flag", "get_suit_bit", "get_card_rank", "get_card_suit", "get_rank_char", "get_suit_char",
+                 "get_suit_letter", "get_chen_points", "next_suit", "is_flagged", "is_flagged_pair", "is_flagged_trips", "is_flagged_quads"]
+        names = [nm_ for nm_ in names if has_self_u32(ctx, nm_)]
         n = 0
         for name in names:
             def one(name=name):
